@@ -114,7 +114,7 @@ func timeFree(res *workerResult) []anomaly {
 	}
 	// which registration kind a lookup kind can see
 	sees := func(lookup, addKind int) bool {
-		switch lookup {
+		switch plainKind(lookup) {
 		case opGetClass, opGetOrLoadClass:
 			return addKind == opAddClass
 		case opGetInterface, opGetOrLoadInterface:
@@ -134,7 +134,7 @@ func timeFree(res *workerResult) []anomaly {
 		own := map[pk]rec{}           // this goroutine's accepted registration
 		last := map[[3]int]int{}      // (table,name,lookup class) -> token seen earlier
 		cls := func(kind int) int { // lookups that see the same registrations share a class
-			switch kind {
+			switch plainKind(kind) {
 			case opGetClass, opGetOrLoadClass:
 				return 1
 			case opGetInterface, opGetOrLoadInterface:
@@ -237,7 +237,7 @@ var typeModel = porcupine.Model{
 	Init: func() interface{} { return typeState{} },
 	Step: func(st, in, out interface{}) (bool, interface{}) {
 		s, i, o := st.(typeState), in.(regIn), out.(int)
-		switch i.kind {
+		switch plainKind(i.kind) {
 		case opAddClass, opAddInterface:
 			if s.kind == 0 {
 				k := int8(1)
